@@ -58,6 +58,8 @@ type CfgCore struct {
 	SkipM     map[string]int `dials:"-"` // skipped by dials, still part of every copy
 	SkipP     *int           `dials:"-"`
 	unexp     int
+	held      Held // unexported; the defaults point HeldP at it
+	HeldP     *Held
 	Ch        chan int
 	Fn        func()
 	After     int
@@ -103,6 +105,17 @@ func buildTU(s string) TextU {
 	var t TextU
 	t.UnmarshalText([]byte(s))
 	return t
+}
+
+// Held has reference-typed exported fields; CfgCore keeps one in an unexported
+// field and (in the defaults) an exported pointer to that very field.
+type Held struct {
+	M map[string]int
+	L []string
+}
+
+func buildHeld(s string) Held {
+	return Held{M: map[string]int{s: len(s)}, L: []string{s, s + "'"}}
 }
 
 type PeerSpec struct {
@@ -158,6 +171,7 @@ type Part struct {
 	PM        map[string]string   `json:"pm,omitempty"` // key -> Nested.S
 	PWhen     *string             `json:"p_when,omitempty"`
 	TU        *string             `json:"tu,omitempty"`
+	Held      *string             `json:"held,omitempty"`
 	NestS     *string             `json:"nest_s,omitempty"`
 	NestN     *int                `json:"nest_n,omitempty"`
 	NestX     *int                `json:"nest_x,omitempty"`
@@ -331,6 +345,14 @@ func fillValue(e reflect.Value, p *Part, owner int) {
 	if p.TU != nil {
 		setPtr(fld("TU"), buildTU(*p.TU))
 	}
+	if p.Held != nil {
+		f := fld("HeldP")
+		h := buildHeld(*p.Held)
+		n := reflect.New(f.Type().Elem())
+		n.Elem().FieldByName("M").Set(reflect.ValueOf(h.M))
+		n.Elem().FieldByName("L").Set(reflect.ValueOf(h.L))
+		f.Set(n)
+	}
 	if p.NestS != nil || p.NestN != nil || p.NestX != nil {
 		f := fld("Nest")
 		n := reflect.New(f.Type().Elem())
@@ -460,6 +482,10 @@ func defaultsFrom(p *Part) *CfgCore {
 	if p.TU != nil {
 		c.TU = buildTU(*p.TU)
 	}
+	if p.Held != nil {
+		c.held = buildHeld(*p.Held)
+		c.HeldP = &c.held // an exported pointer to an unexported sibling
+	}
 	if p.NestS != nil {
 		c.Nest.S = *p.NestS
 	}
@@ -546,8 +572,19 @@ func renderValue(b *strings.Builder, v reflect.Value, seen map[unsafe.Pointer]in
 		fmt.Fprintf(b, "(%s)", v.Elem().Type())
 		renderValue(b, v.Elem(), seen)
 	case reflect.Struct:
+		// what a holder can reach: exported fields. (A struct without any, such
+		// as time.Time, is an opaque value: all of it is rendered.)
+		opaque := true
+		for i := 0; i < v.NumField(); i++ {
+			if v.Type().Field(i).IsExported() {
+				opaque = false
+			}
+		}
 		b.WriteString("{")
 		for i := 0; i < v.NumField(); i++ {
+			if !opaque && !v.Type().Field(i).IsExported() {
+				continue
+			}
 			if i > 0 {
 				b.WriteString(" ")
 			}
